@@ -112,6 +112,71 @@ def annotation_level(rep, tier, work):
              positions=sum(len(o['g2tx']) + len(o['tx2g']) + len(o['gene2tx']) for c in cases for o in c['obs']['txs']))
 
 
+def cache_level(rep, tier, work):
+    r = env.rng('c11cache')
+    b = refgen.Builder(r)
+    for k in range(14):
+        if k % 3 == 2:
+            b.add_gene(refgen.rand_noncoding(r, 30), r.choice([1, -1]), r.randrange(1, 3), False)
+        else:
+            seq, cs, ce, secs, prot = refgen.make_coding_tx_seq(r, 8, 3, 6)
+            b.add_gene(seq, r.choice([1, -1]), r.randrange(1, 4), True, cs, ce, secs, (), prot)
+    ref = b.finish()
+    paths = ref.write(os.path.join(work, 'cache_ref'))
+    txids = [t for t in ref.txs]
+    gids = [g for g in ref.genes]
+    runs = [('MC_PointerCache.cfg', {}, 2), ('MC_PointerCache_s3.cfg', {}, 3)]
+    if tier == 'quick':
+        runs.append(('MC_PointerCache_real.cfg', dict(simulate='num=150', depth=41, seed=env.seed() + 5, workers=1), 10))
+    else:
+        runs.append(('MC_PointerCache_real.cfg', dict(simulate='num=3000', depth=41, seed=env.seed() + 5, workers=1), 10))
+    jl, metas = [], []
+    for cfg, kw, size in runs:
+        rr = tlc.run('MC_PointerCache', cfg, timeout=1800, **({'workers': 8} | kw))
+        rep.tlc(cfg, rr)
+        if rr.violation:
+            rep.violation(f'model:{cfg}:{rr.violation}', f"PointerCache model violates {rr.violation}", dict(tail=rr.out[-1500:]))
+            continue
+        hs = []
+        for s in rr.printed:
+            m = re.match(r'<<"H", "(.*)">>$', s)
+            if m:
+                hs.append(json.loads(m.group(1).encode().decode('unicode_escape')))
+        if not hs:
+            rep.machinery(f"no histories from {cfg}: rc={rr.rc} {rr.errors[:2]} {rr.out[-300:]}")
+            continue
+        keys = sorted({st['key'] for h in hs for st in h})
+        km_tx = {f'k{i + 1}': txids[i] for i in range(14)}
+        km_g = {f'k{i + 1}': gids[i] for i in range(14)}
+        km_tx.update(zz='ENST99999.1', yy='ENST88888.1'); km_g.update(zz='ENSG99999.1', yy='ENSG88888.1')
+        nchunk = 8
+        for c in range(nchunk):
+            part = hs[c::nchunk]
+            if part:
+                jl.append(dict(paths=paths, size=size, keymap_tx=km_tx, keymap_gene=km_g, histories=part))
+                metas.append((cfg, size, part))
+    results = jobs.run_jobs('run_cache_case.py', jl, timeout=3000)
+    st_ok = st_n = 0
+    for (cfg, size, part), res in zip(metas, results):
+        if not res.get('ok'):
+            rep.machinery(f"cache worker failed: {res.get('error')} {res.get('stderr', '')[-400:]}")
+            continue
+        for h in part:
+            rep.case(2, ('cache', size, tuple(s['key'] for s in h)) if any(s['key'] in ('zz', 'yy') for s in h) or len({s['key'] for s in h}) > size else None)
+            rep.traces(2)
+        st_ok += res['state_ok']; st_n += res['state_n']
+        for b_ in res['bad']:
+            h = part[b_['history']]
+            keys = [s['key'] for s in h]
+            rep.violation(f"cache:{b_['dict_kind']}:size{size}:{','.join(keys[:b_['step'] + 1])}",
+                          f"{b_['dict_kind']} pointer dict (cache size {size}) after lookups {keys[:b_['step']]}: lookup of "
+                          f"{b_['key']} gave {b_['got']}, spec {b_['want']}", dict(size=size, history=h, bad=b_))
+    rep.part('pointer_cache', internal_state_matches=st_ok, internal_state_compared=st_n,
+             note="agreement of _cache/_cached_keys with the spec's FIFO state is informational, not a violation")
+    if metas:
+        rep.sample(dict(cache_size=metas[0][1], history=[(s['key'], s['result']) for s in metas[0][2][3]]))
+
+
 def check_c11(tier):
     rep = report.Report('C11', tier)
     rep.cov['rule'] = ("random annotations (both strands, 1-4 exons, isoforms, UTRs, Sec, NF tags, genes wider than their "
@@ -120,4 +185,5 @@ def check_c11(tier):
                        "sequence up to the bound generated by TLC and replayed")
     work = env.scratch('c11_')
     annotation_level(rep, tier, work)
+    cache_level(rep, tier, work)
     return rep.finish()
